@@ -1413,6 +1413,26 @@ func (e *wireExec) sigStep(s *XStep, w *wireTok, env *envelope) {
 	switch s.Kind {
 	case "empty":
 		m.sig.Data = []byte{}
+	case "nonce_is_signed_part":
+		// the genuine signature over the genuine signed part S, on an envelope whose payload is
+		// rewritten and carries S itself as its nonce (the last field in canonical order): whoever
+		// verifies over anything but the whole re-encoded signed part may find S in there
+		genuineSP := append([]byte{}, env.sp.Encode()...)
+		pl := payloadIn(m.sp)
+		pl.MapSet("nonce", cbBytes(genuineSP))
+		if s.Val%2 == 0 {
+			pl.MapSet("aud", cbText(other.id.String()))
+		}
+		if len(genuineSP) > 60000 || s.Val%4 >= 2 {
+			// (everything before the nonce small: the forged payload drops the large values)
+			if pl.MapGet("meta") != nil {
+				pl.MapSet("meta", cbMap())
+			}
+			if pl.MapGet("args") != nil {
+				pl.MapSet("args", cbMap())
+			}
+		}
+		desc = fmt.Sprintf("payload rewritten, nonce = the %d bytes of the genuine signed part, genuine signature", len(genuineSP))
 	case "sig_shape":
 		// the signature element is not a byte string but a LIST (of none, of the genuine signature,
 		// of the genuine one and another), a map, a null: with the payload's nonce rewritten in
@@ -2186,7 +2206,12 @@ func (e *wireExec) byzStep(s *XStep, w *wireTok, env *envelope) {
 			if a == nil || a.Major != 5 {
 				return
 			}
-			switch s.Val / 12 % 4 {
+			switch s.Val / 12 % 6 {
+			case 4:
+				// far down: below 33 / 40 / 100 nested lists
+				a.MapSet("huge", nestCB([]int{33, 40, 100}[s.Val%3], big, func(c *CB) *CB { return cbArray(cbInt(0), c) }))
+			case 5:
+				a.MapSet("huge", nestCB([]int{33, 40, 100}[s.Val%3], big, func(c *CB) *CB { return cbMap(cbText("k"), c) }))
 			case 0:
 				a.MapSet("huge", cbArray(cbMap(cbText("v"), big)))
 			case 1:
@@ -2197,14 +2222,17 @@ func (e *wireExec) byzStep(s *XStep, w *wireTok, env *envelope) {
 				a.MapSet("huge", cbMap(cbText("a"), cbInt(1), cbText("b"), cbMap(cbText("c"), cbArray(cbArray(big)))))
 			}
 		case "pol":
-			if s.Val >= 48 {
+			if s.Val >= 72 {
 				// ... or an integer of the policy that lives in a SELECTOR (an index, a slice bound),
 				// written in decimal: beyond 2^53-1, beyond int64, and so long that a careless
 				// accumulator wraps it back into range
-				n := []string{"9007199254740992", "-9007199254740992", "9223372036854775808", "18446744073709551621", "-18446744073709551618", "36893488147419103237", "55340232221128654855", "99999999999999999999999999", "18446744073709551616"}[(s.Val-48)%9]
-				sel := []string{".l[" + n + "]", ".[" + n + "]", ".l[" + n + ":]", ".l[1:" + n + "]", ".a.l[" + n + "]?", ".l[-" + strings.TrimPrefix(n, "-") + ":" + n + "]"}[(s.Val-48)/9%6]
+				n := []string{"9007199254740992", "-9007199254740992", "9223372036854775808", "18446744073709551621", "-18446744073709551618", "36893488147419103237", "55340232221128654855", "99999999999999999999999999", "18446744073709551616"}[(s.Val-72)%9]
+				sel := []string{".l[" + n + "]", ".[" + n + "]", ".l[" + n + ":]", ".l[1:" + n + "]", ".a.l[" + n + "]?", ".l[-" + strings.TrimPrefix(n, "-") + ":" + n + "]"}[(s.Val-72)/9%6]
 				pl.MapSet("pol", cbArray(cbArray(cbText("=="), cbText(sel), cbInt(1))))
 				big = cbText(sel)
+			} else if s.Val/12 >= 4 {
+				// the literal far down inside nested lists (33, 40, 100 levels)
+				pl.MapSet("pol", cbArray(cbArray(cbText("=="), cbText(".a"), nestCB([]int{33, 40, 100}[s.Val%3], big, func(c *CB) *CB { return cbArray(c) }))))
 			} else if s.Val/12%2 == 0 {
 				pl.MapSet("pol", cbArray(cbArray(cbText("=="), cbText(".a"), big)))
 			} else {
@@ -2514,6 +2542,22 @@ func (e *wireExec) hostileStep(s *XStep, w *wireTok, env *envelope) {
 			return
 		}
 		leaf := cbArray(cbText("=="), cbText(".a"), cbInt(1))
+		// the innermost statement well-formed, or malformed in a way whose report names the path
+		// to it (unknown operator, wrong shape, bad selector, bad pattern, an integer out of range)
+		switch s.Val / 3 % 7 {
+		case 1:
+			leaf = cbArray(cbText("zz"), cbText(".a"), cbInt(1))
+		case 2:
+			leaf = cbArray(cbText("=="), cbText(".a"))
+		case 3:
+			leaf = cbArray(cbText("=="), cbText("a..b["), cbInt(1))
+		case 4:
+			leaf = cbArray(cbText("like"), cbText(".a"), cbText("a\\"))
+		case 5:
+			leaf = cbArray(cbText("=="), cbText(".a"), cbUint(1<<53))
+		case 6:
+			leaf = cbInt(7)
+		}
 		var wrap func(c *CB) *CB
 		switch s.Val % 3 {
 		case 0:
